@@ -321,7 +321,7 @@ MANIFEST = {
     "text": "Held after every call along random training histories (batch sizes 1..64, shapes [B]/[B,1]/[B,k], magnitudes "
             "1e-3..1e4, constant batches, up to 1000 calls): RewardScaler's mean/std/output vs float64 statistics of all "
             "values seen; ExponentialBaseline vs its recurrence; WarmupBaseline vs the convex combination and alpha "
-            "schedule, through the classes and through get_reinforce_baseline. Exploration over histories.",
+            "schedule, through the classes and through get_reinforce_baseline. Exploration over histories. Also: float64 advantages with a large offset, the warm-up weight as driven by real fits (during every epoch and after the run).",
     "note": "Float64 reference over float32 inputs; warm-up checked with in-order epoch callbacks and a stub inner baseline "
             "with known values (the real rollout baseline under warm-up is exercised in C16).",
     "technique": "runtime monitoring: reference-model monitor (float64 recurrences) compared after every call of the real objects",
